@@ -36,7 +36,11 @@ func c18k(c *Ctx) {
 				}
 			case *ssa.BinOp:
 				switch x.Op {
-				case token.ADD, token.SUB, token.MUL:
+				case token.SUB:
+					// a difference can be negative (make panics): only "minus a constant" of something
+					// known to be at least that large would do, and nothing here needs it
+					return "a difference (" + pretty(c.term(fn, x)) + ") can be negative"
+				case token.ADD, token.MUL:
 					if w := sizeOK(x.X, at, depth+1); w != "" {
 						return w
 					}
